@@ -13,7 +13,7 @@ LEVEL = 'exploration'
 BUDGET = {'quick': 1500, 'thorough': 6000}
 RULE = ('Hypothesis-generated histories: 1-3 Transform2D and 1-3 Transform3D instances built with default or '
         'generated constructor arguments, 1-4 listeners each subscribed to a generated subset of the three '
-        'change events (callbacks named like the event or renamed) on a generated subset of the transforms, then listeners subscribing / unsubscribing in between and assignments (also augmented +=) to '
+        'change events (callbacks named like the event or renamed; a third of the listeners are falsy objects - empty collections) on a generated subset of the transforms, then listeners subscribing / unsubscribing in between and assignments (also augmented +=) to '
         'position / rotation / scale with 2D rotations concentrated outside [0, 360) (negative, > 360, exact '
         'multiples of 360, tiny, large, ints and floats) and vectors given as Vec2/Vec3 or plain tuples. Oracle: '
         'after each assignment the property reads back the assigned value (2D rotation: value % 360.), exactly '
@@ -99,6 +99,10 @@ def run_case(case):
                     current['nested'] = (other, val)
                     setattr(t, other, val)
             ns[name(e)] = cb
+        if (mask + ix) % 3 == 0:
+            # a listener that is an (empty) collection of what it was told - a falsy object, and a listener all the same
+            ns['__len__'] = lambda self: 0
+            facts['falsy_listener'] += 1
         return type('Lst%d' % ix, (), ns)(), set(evs)
 
     transforms = []
